@@ -137,6 +137,7 @@ def main(argv=None):
     available = [e for e in engines if _engine_available(e)]
     aggs = []
     found = []
+    others = []
     harness_errors = []
     for e in available:
         w = spec.get("weights") or {}
@@ -155,6 +156,11 @@ def main(argv=None):
             mine = [v for v in rec["violations"] if prop in v["properties"]]
             if mine:
                 found.append((e, rec, mine))
+            else:
+                # belongs to another property's check; never silently dropped
+                others.append({"engine": e, "run_seed": rec["seed"], "index": rec["i"],
+                               "properties": sorted({p for v in rec["violations"] for p in v["properties"]}),
+                               "oracles": sorted({v["oracle"] for v in rec["violations"]})})
         print(f"  engine {e}: runs={agg['runs']} ok={agg['ok']} skipped={sum(agg['skipped'].values())} "
               f"violating={len(agg['violations'])} harness_errors={len(agg['harness_errors'])} "
               f"elapsed={agg['elapsed']:.1f}s", flush=True)
@@ -210,9 +216,13 @@ def main(argv=None):
     for e, rec, v, fp in new[5:]:
         print(f"  (further violation not minimised: {fp})")
 
+    for o in others[:5]:
+        print(f"  note: run {o['run_seed']} (engine {o['engine']}) violated {','.join(o['properties']) or 'no claimed property'} "
+              f"[{', '.join(o['oracles'])}] - not a statement of {prop}; the check of that property reports it")
     wall = time.time() - t0
     if aggs and not os.environ.get("TSIM_NO_EVIDENCE"):
-        write_evidence(prop, tier, seed, aggs, reported, known_hits, wall)
+        write_evidence(prop, tier, seed, aggs, reported, known_hits, wall,
+                       extra_assumptions=[f"violations of other properties seen in this batch: {len(others)}"] if others else ())
     total_runs = sum(a["runs"] for a in aggs)
     inconclusive = sum(a["inconclusive"] for a in aggs)
     print(f"check {prop}: {total_runs} runs, {len(reported)} violation(s), "
